@@ -75,4 +75,56 @@ example :
        ("_simple_send_tensors", .allGather), ("_simple_send_tensors", .allGather)] := by
   decide +kernel
 
+/-- **group lock-step**: a whole group of members (any number) whose valuations agree with one reference member on every
+    rank-free guard and trip count passes, member by member, the reference member's sequence of collective sites. -/
+theorem C02_skel_group_lockstep (t : Table) (hwf : WF t = true) (ρ₀ : Valuation) (grp : List Valuation)
+    (hg : ∀ ρ ∈ grp, ∀ g : Term, g.rankFree = true → ρ.guard g = ρ₀.guard g)
+    (ht : ∀ ρ ∈ grp, ∀ g : Term, g.rankFree = true → ρ.trips g = ρ₀.trips g) (fuel : Nat) (f : String) :
+    ∀ ρ ∈ grp, run t ρ fuel f = run t ρ₀ fuel f :=
+  fun ρ hρ => C02_skel_lockstep t hwf ρ ρ₀ (hg ρ hρ) (ht ρ hρ) fuel f
+
+/-- **no member waits alone**: under the hypotheses of the group lock-step, at every step `i` of the schedule all members
+    of the group are at the same collective site (same function, same node, same kind), or all have finished: no member
+    issues an `i`-th collective that another member never issues (the hang of a mismatched schedule), and none issues a
+    collective of another kind (the `gloo::EnforceNotMet` abort). -/
+theorem C02_skel_no_lone_collective (t : Table) (hwf : WF t = true) (ρ₀ : Valuation) (grp : List Valuation)
+    (hg : ∀ ρ ∈ grp, ∀ g : Term, g.rankFree = true → ρ.guard g = ρ₀.guard g)
+    (ht : ∀ ρ ∈ grp, ∀ g : Term, g.rankFree = true → ρ.trips g = ρ₀.trips g) (fuel : Nat) (f : String) (i : Nat) :
+    (∀ ρ₁ ∈ grp, ∀ ρ₂ ∈ grp, (run t ρ₁ fuel f)[i]? = (run t ρ₂ fuel f)[i]?) ∧
+    (∀ ρ₁ ∈ grp, ∀ ρ₂ ∈ grp, (run t ρ₁ fuel f).length = (run t ρ₂ fuel f).length) := by
+  have h := C02_skel_group_lockstep t hwf ρ₀ grp hg ht fuel f
+  exact ⟨fun ρ₁ h₁ ρ₂ h₂ => by rw [h ρ₁ h₁, h ρ₂ h₂], fun ρ₁ h₁ ρ₂ h₂ => by rw [h ρ₁ h₁, h ρ₂ h₂]⟩
+
+/-- the table regenerated from /repo's working tree satisfies the hypothesis of the lock-step theorems (decided on the
+    generated table itself, not on the expected one). -/
+theorem C02_skel_generated_wf : WF Gen.syncSkel = true := by decide +kernel
+
+/-- **lock-step of the current tree**: for the skeleton of synclib / toolkit as they are in /repo now, every entry point
+    (`f` ranges over all functions, in particular `sync_and_compute`, `get_synced_metric_collection`, `sync_states`) makes
+    every member of a group whose rank-free guards and trip counts agree pass the same collective sites in the same order. -/
+theorem C02_skel_lockstep_current (ρ₀ : Valuation) (grp : List Valuation)
+    (hg : ∀ ρ ∈ grp, ∀ g : Term, g.rankFree = true → ρ.guard g = ρ₀.guard g)
+    (ht : ∀ ρ ∈ grp, ∀ g : Term, g.rankFree = true → ρ.trips g = ρ₀.trips g) (fuel : Nat) (f : String) :
+    ∀ ρ ∈ grp, run Gen.syncSkel ρ fuel f = run Gen.syncSkel ρ₀ fuel f :=
+  C02_skel_group_lockstep Gen.syncSkel C02_skel_generated_wf ρ₀ grp hg ht fuel f
+
+/-- non-vacuity of the group theorems on the generated table: a group of three (the receiver, and two members that take
+    every rank-dependent guard the other way / only some of them, with other trip counts for rank-dependent loops) running `sync_states` passes one and the same
+    schedule of four collectives. -/
+example :
+    let shared : Term → Bool := fun g =>
+      g == c "isinstance" [c "getitem" [c "getitem" [.v "states", c "getitem" [.b 0, .int 0]], c "getitem" [.b 0, .int 1]], .fn "torch.Tensor"]
+        || g == c "is" [.none, .v "rank"]
+    let ρ₀ : Valuation := ⟨fun g => shared g || !g.rankFree, fun _ => 2⟩
+    let ρ₁ : Valuation := ⟨fun g => shared g, fun _ => 2⟩
+    let ρ₂ : Valuation := ⟨fun g => shared g || (!g.rankFree && g.headIs "==" ), fun g => if g.rankFree then 2 else 5⟩
+    (∀ ρ ∈ [ρ₀, ρ₁, ρ₂], ∀ g : Term, g.rankFree = true → ρ.guard g = ρ₀.guard g) ∧
+    run Gen.syncSkel ρ₁ 8 "sync_states" = run Gen.syncSkel ρ₀ 8 "sync_states" ∧
+    run Gen.syncSkel ρ₂ 8 "sync_states" = run Gen.syncSkel ρ₀ 8 "sync_states" ∧
+    (run Gen.syncSkel ρ₀ 8 "sync_states").length = 4 := by
+  refine ⟨?_, by decide +kernel, by decide +kernel, by decide +kernel⟩
+  intro ρ hρ g hgf
+  simp only [List.mem_cons, List.not_mem_nil, or_false] at hρ
+  rcases hρ with rfl | rfl | rfl <;> simp [hgf]
+
 end TE.C02
